@@ -410,7 +410,7 @@ func (fx *FnExec) builtinAppend(st *State, c *ssa.CallCommon, instr ssa.Instruct
 	// reallocated result: fresh base, content copied
 	nref := fx.newRef(st, "append")
 	ncap := fx.sc.Fresh("appcap", SInt)
-	fx.sc.Assume(And(App(">=", SBool, ncap, newLen), App("<=", SBool, ncap, Term{"9223372036854775807", SInt})))
+	fx.sc.Assume(And(App(">=", SBool, ncap, newLen), App("<=", SBool, ncap, Term{"281474976710656", SInt})))
 	newArr := fx.sc.Fresh("apparr", ArraySort(SInt, es))
 	if n, ok := staticLen(c.Args[1]); ok && n <= 8 {
 		for j := int64(0); j < n; j++ {
